@@ -5,9 +5,9 @@ def run(tier, seed):
     c = vlib.GoCheck("C21", "model_checking", tier, seed)
     n = 3 if tier == "quick" else 4
     c.assumptions = [
-        "document: 0..%d fully symbolic bytes, valid UTF-8 (ASCII, 2-, 3- and 4-byte characters), no carriage return; one incremental change with symbolic start/end (line, character) each in 0..6 and a replacement text of 0..2 symbolic bytes; plus the full-document change" % n,
+        "document: 0..%d fully symbolic bytes, valid UTF-8 (ASCII, 2-, 3- and 4-byte characters), carriage return only as part of CRLF; one incremental change with symbolic start/end (line, character) each in 0..6 and a replacement text of 0..2 symbolic bytes; plus the full-document change" % n,
         "oracle: the client's model written in the harness - lines split at newline, characters counted in UTF-16 code units, edit applied between the two positions",
-        "positions inside a surrogate pair: no claim (clients must not send them)",
+        "positions inside a surrogate pair or between CR and LF: no claim (clients must not send them)",
         "DocumentURI.Path (net/url parsing) is an opaque stub; logging and SyncFile are not reached by changedText",
         "sequences of several notifications are covered one step at a time: each change is applied to an arbitrary current document",
     ]
